@@ -524,6 +524,10 @@ def _read_offline(input, skip=0, max_read=None, **kwargs):
         else:
             max_read = round(max_read * audio_source.sampling_rate)
     data = audio_source.read(max_read)
+    if data is None:
+        # nothing (left) to read: empty source, `skip` beyond the end of
+        # the stream or `max_read` shorter than one sample
+        data = b""
     audio_source.close()
     return (
         data,
